@@ -220,6 +220,18 @@ pub fn check(tier: &str, budget_s: f64, report: &mut Report) {
                         let err = String::from_utf8_lossy(&out.stderr);
                         let excerpt: String = err.lines().filter(|l| l.contains("AddressSanitizer") || l.contains("ERROR") || l.trim_start().starts_with('#') || l.contains("freed by") || l.contains("allocated by") || l.contains("located")).take(28).collect::<Vec<_>>().join("\n");
                         let (i, name) = last_start.clone().unwrap_or((start, "<before the first program>".into()));
+                        // only a sanitizer report (exit code 77) or a fatal signal is a verdict;
+                        // any other abnormal exit is a failure of the machinery
+                        let by_signal = {
+                            use std::os::unix::process::ExitStatusExt;
+                            out.status.signal().is_some()
+                        };
+                        if !(out.status.code() == Some(77) || err.contains("AddressSanitizer") || by_signal) {
+                            let tail: String = err.lines().rev().take(3).collect::<Vec<_>>().join(" | ");
+                            viols.lock().unwrap().push((format!("{fam}|{name}|machinery"), format!("MACHINERY the sanitizer build exited with {:?} while exploring {name}: {tail}", out.status)));
+                            start = i + 1;
+                            continue;
+                        }
                         totals.lock().unwrap().3 += 1;
                         viols.lock().unwrap().push((
                             format!("{fam}|{name}"),
